@@ -1,4 +1,5 @@
 import UtpVerif.Model.Rx
+import UtpVerif.Gen.Fns
 import UtpVerif.Lemmas.Rx
 import UtpVerif.Lemmas.Wire
 /-!
@@ -320,5 +321,11 @@ example :
     (run (Rx.build 16 4) [.arrive 0 [1, 2] 1, .arrive 0 [3] 3, .flush, .arrive 0 [9, 9, 9] 0, .flush, .read 2]).map
       (fun r => (r.remainingRxWindow, r.ooq.filledFront, r.queue.length, r.ooq.selectiveAck.map (·.asBytes)))
     = some (10, 0, 1, some [1, 0, 0, 0, 0, 0, 0, 0]) := by decide
+
+
+/-! ### Tie 1b: regenerated definition (see DESIGN 2) -/
+
+/-- `MsgQueue::window()` (stream_rx.rs): free space of the reader's queue. -/
+theorem generated_msg_queue_window (r : Rx) : UtpVerif.Gen.Fns.msgQueueWindow r.qCapacity r.qLenBytes = r.queueWindow := rfl
 
 end UtpVerif.Props.C04
